@@ -71,4 +71,21 @@ CHECKS = {
    text="CoCsdo models one SDO client with its per-step timeout and an environment server (conforming, aborting, silent, wrong toggle / command / size / multiplexer). TLC checks on every transition: the completion callback comes exactly once per accepted request, a busy client refuses, an idle client has nothing armed, a timeout sends the abort frame. "
         "Edges + probe (state, timer pool occupancy, ticks beyond every timeout, buffer dump, a second transfer with a longer timeout that a stale timer would abort, a third transfer without timeout) and walks are replayed, plus complete conforming dialogues of 255..2000 bytes; compared: request / segment frames with size, toggle, last marking and data, callback code, user buffer content, API return class, free timer slots.",
    note=MC_NOTE, technique="TLA+/TLC model checking + edge-cover behaviours replayed against the C code", ref="DESIGN.md section 8, C19"),
+ "C12": dict(
+   text="CoPdo keeps stored and activated PDO configuration apart and models TPDO transmission with inhibit / event countdowns, the pending flag, object-change triggers and SYNC counting. TLC checks: PDO frames only in OPERATIONAL for valid TPDOs, no transmission inside a running inhibit time, activated mappings <= 8 bytes. "
+        "Edges + 22-step probe (ticks across inhibit and event time, trigger, object change, three SYNCs, leave and re-enter OPERATIONAL) and walks for an event-driven TPDO (inhibit 2, event 3 ticks) next to a type-2 synchronous TPDO and an RPDO are replayed with per-tick comparison of all frames (identifier, DLC, little-endian data) and COPdoTransmit calls.",
+   note=MC_NOTE + " Named deviations (not asserted): first event period after activation is staggered by the PDO number; explicit trigger of a synchronous TPDO; a running inhibit time restarts when 18xxh:5 is written. Alphabets keep inhibit and event expiry off the same tick.",
+   technique="TLA+/TLC model checking + edge-cover behaviours replayed against the C code", ref="DESIGN.md section 8, C12"),
+ "C13": dict(
+   text="Same model, RPDO side: mapping tables with dummy entries, asynchronous and synchronous RPDOs, first-match identifier lookup, buffered application at the next SYNC exactly once. TLC checks that objects change only in OPERATIONAL; the C code is compared on every edge (three RPDOs: a/dummy8/w asynchronous, b/dummy16/l synchronous, two 32-bit dummies; frames, near-miss identifiers, SYNC, NMT changes, local writes) "
+        "through storage changes of every application object at every step plus a read-back probe.",
+   note=MC_NOTE, technique="TLA+/TLC model checking + edge-cover behaviours replayed against the C code", ref="DESIGN.md section 8, C13"),
+ "C14": dict(
+   text="Write rules of 14xxh/16xxh/18xxh/1Axxh as operators on the stored configuration (valid->valid refused, RTR / extended refused, type / count / entries only while invalid, entries only while count is 0, entry must name an existing mappable object with matching access, count <= 8 entries / 8 bytes over resolvable entries). "
+        "TLC checks as invariant that the stored configuration is always activatable and every activated mapping resolves and is <= 8 bytes. Edges (TPDO and RPDO alphabets separately) + probe (read back every parameter, re-enter OPERATIONAL, trigger, RPDO frame, near-miss) replayed: SDO verdict and abort code per write, stored values after refusal, behaviour after activation.",
+   note=MC_NOTE, technique="TLA+/TLC model checking + edge-cover behaviours replayed against the C code", ref="DESIGN.md section 8, C14"),
+ "C16": dict(
+   text="SYNC part of CoPdo: recognition iff identifier = stored CAN-ID in PRE-OPERATIONAL/OPERATIONAL, each SYNC advances synchronous PDOs once, producer countdown with period 1006h/1000 ticks gated by the NMT state, 1005h/1006h write rules (start, stop, re-time, identifier change refused while producing, unresolvable period refused with the old value kept, a later valid write accepted). "
+        "Edges + probe (read back both objects, ticks, SYNC and near-miss, reconfigure and start the producer, ticks) and walks replayed with per-tick comparison of produced SYNC frames, SDO verdicts, the type-1 TPDO frames and synchronous RPDO effects.",
+   note=MC_NOTE + " Periods above 6 553 500 us (16-bit argument of COTmrGetTicks) are outside the alphabet.", technique="TLA+/TLC model checking + edge-cover behaviours replayed against the C code", ref="DESIGN.md section 8, C16"),
 }
